@@ -260,6 +260,17 @@ func runC17F(s *kernel.Sim) {
 	if tp.Chance(1, 4) {
 		seqs[2] = "" // a client that sends an empty x-lunar-sequence-id: still one sequence
 	}
+	// sequence ids come from the client: a quarter of the runs use long ones that differ
+	// only after their first 48 characters
+	longIDs := tp.Chance(1, 4)
+	if longIDs {
+		for i, q := range seqs {
+			if q != "" {
+				seqs[i] = "0123456789abcdef0123456789abcdef0123456789abcdef-" + q
+			}
+		}
+	}
+	s.Knobs["long_sequence_ids_with_a_common_prefix"] = longIDs
 	pinned := tp.Chance(1, 4)
 	s.Knobs["client_pins_transaction_id"] = pinned
 	statuses := []int{500, 503, 599, 200, 404, 429}
